@@ -82,7 +82,7 @@ def matrix_rep(p=0, q=0, r=0, signature=None):
     Es = list(Es)
 
     Rs = Es.copy()
-    Iden = reduce(np.kron, [I for _ in range(d)])
+    Iden = np.eye(2 ** d, dtype=int)
     Rs.insert(0, Iden)
 
     # Extend Rs with the higher order basis-blades.
